@@ -656,6 +656,8 @@ class Peer:
         assert self.proto is not None
         assert self.proto.connection is not None
         assert self.recv_timer is not None
+        # the transport of THIS session: _stop() and handle_connection() replace self.proto from outside
+        session_proto = self.proto
 
         if self._teardown:
             raise Notify(6, 3)
@@ -733,6 +735,11 @@ class Peer:
                 except asyncio.TimeoutError:
                     message = _NOP
                     await asyncio.sleep(0)
+
+                # the transport was dropped or replaced under this loop: what self.proto is now does not
+                # belong to this session, nothing of it (routes, refresh, NOTIFICATION) may go there
+                if self.proto is not session_proto:
+                    raise Interrupted('the connection of this session was replaced')
 
                 # RFC 4271 8.2.2 / RFC 6608: an OPEN is not expected once the session is established
                 if message.TYPE == Open.TYPE:
